@@ -1512,6 +1512,8 @@ def qualified_name(f):
     mod = getattr(f, "__module__", None)
     qn = getattr(f, "__qualname__", getattr(f, "__name__", None))
     if isinstance(f, types.BuiltinFunctionType) and getattr(f, "__self__", None) is not None and not isinstance(f.__self__, types.ModuleType):
+        if isinstance(f.__self__, type):  # a classmethod of a builtin type (dict.fromkeys, int.from_bytes ...)
+            return "builtins.%s.%s" % (f.__self__.__name__, f.__name__)
         return "%s.%s" % (type(f.__self__).__name__, f.__name__)
     if mod is None:
         return str(qn)
